@@ -16,6 +16,9 @@ EntryList == {[site |-> e.site, pid |-> e.pid, rel |-> e.rel, dir |-> e.dir, c |
 Names(s) == {[pid |-> q, names |-> nameMap[q]] : q \in DOMAIN nameMap}
 Leaf == LET t == Last(plan) IN IF t.subs # <<>> THEN Last(t.subs) ELSE t
 
+(* the name universe of the configuration, for the drivers that play every name *)
+ASSUME PrintT("NAMES " \o ToJson(HostileNames))
+
 Export07 == (round = 1 /\ phase \in {"ok", "failed"}) =>
     PrintT("MBT " \o ToJson([pre |-> PathList(pre), entries |-> EntryList, cfg |-> cfg,
                               want |-> [phase |-> phase, reported |-> reported, exhausted |-> exhausted]]))
